@@ -18,9 +18,9 @@ def run(tier, runner):
     r_es = encoding.enc_sib(progs)
     r_eo.require(10, 'adjustEachOtherCapacity instantiations')
     r_sr.require(20, 'swap2_impl instantiations')
-    r_w.require(18, 'stores to the size words')
+    r_w.require(12, 'stores to the size words')
     r_tf.require(20, 'swap2_impl instantiations (ordered flavour pairs)')
-    r_cd.require(3, 'constructs in the swap paths')
+    r_cd.require(2, 'constructs in the swap paths')
     r_xa = ownership.xalloc(sw)
     r_xa.require(6, 'canSwapDynStorage instantiations (receiver x operand)')
     return {
